@@ -355,6 +355,138 @@ pub fn check_ix(c: &IxCase, l: &mut Local) -> Result<(), String> {
     Ok(())
 }
 
+// ---------------------------------------------------------------------------------------------------
+// reposition_liquidity_v2: the withdrawal side is held to the caller's minima, the deposit side to the caller's maxima
+
+#[derive(Clone, Debug, Serialize, Deserialize, Hash)]
+pub struct RepoCase {
+    pub hist: HistoryCase,
+    pub pos: u16,
+    pub range: RangeSel,
+    #[serde(with = "crate::ser::u128s")]
+    pub liquidity: u128,
+    /// 0 = the generated liquidity; 1 = the largest liquidity whose cost fits what the existing range pays out (net transfers near or
+    /// exactly zero); 2 = that plus one; 3 = the existing liquidity
+    pub sizing: u8,
+}
+
+pub fn check_reposition(c: &RepoCase, l: &mut Local) -> Result<(), String> {
+    use super::c16::{fee_of, smallest_included};
+    let Some(mut h) = Hist::build(&c.hist.spec) else { return Ok(()) };
+    for op in &c.hist.ops {
+        h.exec(op);
+    }
+    let open = h.open_positions();
+    if open.is_empty() {
+        return Ok(());
+    }
+    let p = open[pick(c.pos, open.len())];
+    let info = h.w.positions[p].clone();
+    if matches!(decode_frozen(&h.w, &info), Some(true)) {
+        return Ok(());
+    }
+    let (nlo, nhi) = h.resolve_range(&c.range);
+    h.ensure_array(nlo);
+    h.ensure_array(nhi);
+    let st = h.w.pool_state(h.pool);
+    let pool = h.w.pools[h.pool].clone();
+    let cur = h.w.position_state(p).map(|s| s.liquidity).unwrap_or(0);
+    let ts = st.tick_spacing as i32;
+    if nlo >= nhi || nlo % ts != 0 || nhi % ts != 0 || nlo < MIN_TICK || nhi > MAX_TICK || (nlo, nhi) == (info.lower, info.upper) {
+        l.count("reposition/invalid_or_same_range");
+        return Ok(());
+    }
+    let (pl, pu) = (sqrt_price_from_tick_index(info.lower), sqrt_price_from_tick_index(info.upper));
+    let (npl, npu) = (sqrt_price_from_tick_index(nlo), sqrt_price_from_tick_index(nhi));
+    let (wa, wb) = position_amounts(cur, st.sqrt_price, pl, pu, false);
+    let (Some(wa), Some(wb)) = (wa.to_u64(), wb.to_u64()) else { return Ok(()) };
+    let liq = match c.sizing % 4 {
+        1 => largest_liquidity(st.sqrt_price, npl, npu, wa, wb).to_u128().unwrap_or(c.liquidity),
+        2 => largest_liquidity(st.sqrt_price, npl, npu, wa, wb).to_u128().unwrap_or(c.liquidity).saturating_add(1),
+        3 => cur,
+        _ => c.liquidity,
+    };
+    if liq == 0 {
+        return Ok(());
+    }
+    let (ca, cb) = position_amounts(liq, st.sqrt_price, npl, npu, true);
+    let (Some(ca), Some(cb)) = (ca.to_u64(), cb.to_u64()) else {
+        l.count("reposition/cost_exceeds_u64");
+        return Ok(());
+    };
+    let (tfa, tfb) = (pool.mint_a.transfer_fee, pool.mint_b.transfer_fee);
+    // what the caller's bounds are compared with: withdrawal net of the transfer fee; new-range cost plus the fee on the net amount sent
+    let min_of = |tf, w: u64| w - fee_of(tf, w);
+    let max_of = |tf, w: u64, cst: u64| -> Option<u64> {
+        if cst > w {
+            let inc = smallest_included(tf, cst - w)?;
+            cst.checked_add(fee_of(tf, inc))
+        } else {
+            Some(cst)
+        }
+    };
+    let (min_a, min_b) = (min_of(tfa, wa), min_of(tfb, wb));
+    let (Some(max_a), Some(max_b)) = (max_of(tfa, wa, ca), max_of(tfb, wb, cb)) else { return Ok(()) };
+    let owner = info.owner;
+    let (ta, tb) = (h.w.user_token_existing(owner, &pool.mint_a.key), h.w.user_token_existing(owner, &pool.mint_b.key));
+    let run = |mins: (u64, u64), maxs: (u64, u64)| -> (crate::rt::Outcome, World) {
+        let mut w = h.w.clone();
+        let o = w.exec(&w.ix_reposition(p, nlo, nhi, liq, mins.0, mins.1, maxs.0, maxs.1));
+        (o, w)
+    };
+    let (o, w1) = run((min_a, min_b), (max_a, max_b));
+    if !o.ok() {
+        let code = o.code().unwrap();
+        // refusals for other reasons (funds, liquidity overflow, full-range-only pools ...) say nothing about the thresholds
+        if code == 6017 || code == 6018 {
+            return Err(format!("reposition of L={cur} [{}, {}] into L={liq} [{nlo}, {nhi}] at price {} with minima ({min_a}, {min_b}) = what the old range returns ({wa}, {wb}) and maxima ({max_a}, {max_b}) = what the new range costs ({ca}, {cb}) failed with {code}", info.lower, info.upper, st.sqrt_price));
+        }
+        l.count(&format!("reposition/refused/{code}"));
+        return Ok(());
+    }
+    // net movements of the owner's accounts
+    let d = |k: &solana_program::pubkey::Pubkey| w1.balance(k) as i128 - h.w.balance(k) as i128;
+    for (name, k, tf, wd, cst) in [("A", &ta, tfa, wa, ca), ("B", &tb, tfb, wb, cb)] {
+        let want: i128 = if cst > wd { -(smallest_included(tf, cst - wd).unwrap_or(0) as i128) } else { ((wd - cst) - fee_of(tf, wd - cst)) as i128 };
+        if d(k) != want {
+            return Err(format!("reposition moved {} of token {name} for the owner; old range returns {wd}, new range costs {cst}: expected {want}", d(k)));
+        }
+    }
+    l.count("reposition/at_bounds_ok");
+    if wa == ca && wa > 0 || wb == cb && wb > 0 {
+        l.count("reposition/one_token_nets_to_zero");
+    }
+    for (what, mins, maxs, applies) in [
+        ("minimum of token A", (min_a.saturating_add(1), min_b), (max_a, max_b), true),
+        ("minimum of token B", (min_a, min_b.saturating_add(1)), (max_a, max_b), true),
+        ("maximum of token A", (min_a, min_b), (max_a.wrapping_sub(1), max_b), ca > 0),
+        ("maximum of token B", (min_a, min_b), (max_a, max_b.wrapping_sub(1)), cb > 0),
+    ] {
+        if !applies {
+            continue;
+        }
+        if run(mins, maxs).0.ok() {
+            return Err(format!(
+                "reposition accepted although it misses the caller's {what} by one: old range L={cur} [{}, {}] returns ({wa}, {wb}), new range L={liq} [{nlo}, {nhi}] costs ({ca}, {cb}), minima {mins:?}, maxima {maxs:?}",
+                info.lower, info.upper
+            ));
+        }
+        l.count("reposition/one_off_bound_rejected");
+    }
+    l.nontrivial(hash_of(c));
+    l.sample(|| json!({"spec": c.hist.spec, "old": [info.lower, info.upper], "new": [nlo, nhi], "L_old": cur.to_string(), "L_new": liq.to_string(), "returns": [wa, wb], "costs": [ca, cb]}));
+    Ok(())
+}
+
+fn repo_case() -> BoxedStrategy<RepoCase> {
+    let plain = (history_strategy(false, false, 16), prop_oneof![3 => Just(0u8), 1 => Just(1u8)]).prop_map(|(mut h, mk)| {
+        h.spec.mint_kind = mk;
+        h
+    });
+    let hist = prop_oneof![3 => plain, 2 => with_fee_mints(history_strategy(false, false, 16))];
+    (hist, any::<u16>(), range_strategy(), liquidity_strategy(), 0u8..4).prop_map(|(hist, pos, range, liquidity, sizing)| RepoCase { hist, pos, range, liquidity, sizing }).boxed()
+}
+
 fn decode_frozen(w: &World, info: &PosInfo) -> Option<bool> {
     crate::decode::token_state(&w.bank.get(&info.token_account).data).map(|s| s == 2)
 }
@@ -376,12 +508,13 @@ pub fn def() -> CheckDef {
                amounts (A over [clamp(p),pu], B over [pl,clamp(p)]) rounded up for +L and down for -L, one-sidedness, round trip returns <= paid and loses <= 1 per \
                token, estimate == largest liquidity whose cost fits both maxima (bisection on BigUint).  Instruction level on states reached by generated \
                histories: increase with token_max = cost succeeds and moves exactly the cost, cost-1 fails; decrease with token_min = return succeeds, return+1 \
-               fails; by-token-amounts adds exactly the largest fitting liquidity, respects the price window.  Non-trivial (fn) = Ok with both tokens non-zero, or \
+               fails; by-token-amounts adds exactly the largest fitting liquidity, respects the price window; reposition_liquidity_v2 (SPL and Token-2022 fee mints; new liquidity generated, equal to the old, or sized so that what the old range pays out just covers the new range): accepted with minima = what the old range returns (net of transfer fee) and maxima = what the new range costs (plus the fee on the net amount sent), owner's balances move by exactly the net amounts, each bound missed by one is refused.  Non-trivial (fn) = Ok with both tokens non-zero, or \
                shifted state, or L >= 2^64; (ix) = each boundary pair evaluated.",
         assumptions: vec!["H1 re-export hook for the Pinocchio copy", "nsvm runtime as in DESIGN.md §5"],
         subs: vec![
             sub("token_deltas_and_estimate", 1_500_000, 300_000_000, fn_case, |c: &FnCase, l: &mut Local| check_fn(c, l)),
             sub("instruction_thresholds", 16_000, 400_000, ix_case, |c: &IxCase, l: &mut Local| check_ix(c, l)),
+            sub("reposition_thresholds", 16_000, 400_000, repo_case, |c: &RepoCase, l: &mut Local| check_reposition(c, l)),
         ],
     }
 }
